@@ -6,7 +6,8 @@
 //! `InsertTrivia(i, kind)` of the specification).  For every script the runner records one
 //! ndjson event per specification action with the projected state:
 //!
-//!   Reset{id,n,dg,src}            a new input text of n bytes (dg = digest of the text)
+//!   Reset{id,n,dg,rep,src}        a new input text of n bytes (dg = digest of the text, rep = 1 if
+//!                                 the same text occurs in more than one script of the file)
 //!   Lex{toks:[[kind,start,end,hash,trivia]..]}
 //!   Parse{walk:[["S",kind]|["T",kind,len,trivia]|["F"]..], errs:[[s,e]..], tlen, tdg, dg}
 //!   Reparse{dg}                   a second parse of the same text after an unrelated one
@@ -346,7 +347,7 @@ fn ins_list(rng: &mut StdRng, n: usize) -> Vec<J> {
     (0..n).map(|_| json!([rng.gen_range(0..1000), TRIVIA.choose(rng).unwrap().0])).collect()
 }
 
-/// parse-gen --seed S --runs N [--tlc exported.ndjson] --out scripts.ndjson
+/// parse-gen --seed S --runs N [--tlc exported.ndjson] [--no-corpus] --out scripts.ndjson
 /// Every script written is self-contained: {"id","src","text","ins":[[permille,what]..]}.
 pub fn gen(args: &[String]) -> i32 {
     let seed = arg_u64(args, "--seed", 1);
@@ -374,7 +375,7 @@ pub fn gen(args: &[String]) -> i32 {
                 put(&mut o, "tlc-soup", text, ins);
             } else {
                 let f = sc["file"].as_u64().unwrap_or(0) as usize % corp.len();
-                let g = sc["other"].as_u64().unwrap_or(0) as usize % corp.len();
+                let g = (f * 7 + 3) % corp.len(); // the program a Splice takes its tail from
                 let ops: Vec<(String, u64, u64)> = sc["ops"]
                     .as_array()
                     .map(|a| a.iter().map(|x| (x[0].as_str().unwrap().to_string(), x[1].as_u64().unwrap(), x[2].as_u64().unwrap())).collect())
@@ -385,14 +386,29 @@ pub fn gen(args: &[String]) -> i32 {
         }
     }
     // (2) every corpus program as it is, with insertions
-    for (_, t) in &corp {
-        let ins = ins_list(&mut rng, 6);
-        put(&mut o, "corpus", t.clone(), ins);
+    if !args.iter().any(|a| a == "--no-corpus") {
+        for (_, t) in &corp {
+            let ins = ins_list(&mut rng, 6);
+            put(&mut o, "corpus", t.clone(), ins);
+        }
     }
-    // (3) seeded random scripts
+    // (3) seeded random scripts; every 40th is an echo: the text generated 25 scripts earlier, again
+    let mut recent: std::collections::VecDeque<String> = std::collections::VecDeque::new();
+    let mut put = |o: &mut Out, src: &str, text: Option<String>, ins: Vec<J>| {
+        let text = text.unwrap_or_else(|| recent.front().cloned().unwrap_or_default());
+        recent.push_back(text.clone());
+        if recent.len() > 25 {
+            recent.pop_front();
+        }
+        put(o, src, text, ins);
+    };
     for k in 0..runs {
+        if k % 40 == 39 {
+            put(&mut o, "echo", None, vec![]);
+            continue;
+        }
         match k % 20 {
-            0..=7 => {
+            0..=5 => {
                 let len = rng.gen_range(1..40);
                 let text: String = (0..len)
                     .map(|_| {
@@ -400,17 +416,17 @@ pub fn gen(args: &[String]) -> i32 {
                         if rng.gen_bool(0.6) { format!("{a} ") } else { a.to_string() }
                     })
                     .collect();
-                put(&mut o, "soup", text, vec![]);
+                put(&mut o, "soup", Some(text), vec![]);
             }
-            8..=12 => {
+            6..=12 => {
                 let f = rng.gen_range(0..corp.len());
                 let g = rng.gen_range(0..corp.len());
                 let names = ["Delete", "Duplicate", "Swap", "Truncate", "Splice"];
                 let ops: Vec<(String, u64, u64)> =
                     (0..rng.gen_range(1..4)).map(|_| (names[rng.gen_range(0..5)].to_string(), rng.gen_range(0..1000), rng.gen_range(0..1000))).collect();
-                put(&mut o, "mutant", mutate(&corp[f].1, &corp[g].1, &ops), vec![]);
+                put(&mut o, "mutant", Some(mutate(&corp[f].1, &corp[g].1, &ops)), vec![]);
             }
-            13 => put(&mut o, "unicode", random_unicode(&mut rng), vec![]),
+            13 => put(&mut o, "unicode", Some(random_unicode(&mut rng)), vec![]),
             14 => {
                 // stray characters dropped into a corpus program at arbitrary character positions
                 let f = rng.gen_range(0..corp.len());
@@ -419,16 +435,16 @@ pub fn gen(args: &[String]) -> i32 {
                     let at = rng.gen_range(0..=cs.len());
                     cs.insert(at, *UNICODE.choose(&mut rng).unwrap());
                 }
-                put(&mut o, "stray", cs.into_iter().collect(), vec![]);
+                put(&mut o, "stray", Some(cs.into_iter().collect()), vec![]);
             }
             15 | 16 => {
                 let t = nested(&mut rng);
-                put(&mut o, "nested", t, vec![]);
+                put(&mut o, "nested", Some(t), vec![]);
             }
             _ => {
                 let t = well_formed(&mut rng);
                 let ins = ins_list(&mut rng, 4);
-                put(&mut o, "wellformed", t, ins);
+                put(&mut o, "wellformed", Some(t), ins);
             }
         }
     }
@@ -545,9 +561,10 @@ fn parse_proj(text_in: &str) -> Parsed {
 const DECOY: &str = "FUNCTION_BLOCK decoy VAR a : INT; END_VAR a := (a + 1 (* open\nEND_FUNCTION_BLOCK 'x";
 
 /// Execute one script on the real code.  Returns (tokens, non-trivia tokens, error-free) of the base text.
-fn exec_script(sc: &J, emit: &mut dyn FnMut(J)) -> (usize, usize, bool) {
+fn exec_script(sc: &J, repeated: bool, emit: &mut dyn FnMut(J)) -> (usize, usize, bool) {
     let text = sc["text"].as_str().expect("script.text");
-    emit(json!({"a": "Reset", "id": sc["id"], "n": text.len(), "dg": hex_digest(&[text.as_bytes()]), "src": sc["src"].as_str().unwrap_or("")}));
+    emit(json!({"a": "Reset", "id": sc["id"], "n": text.len(), "dg": hex_digest(&[text.as_bytes()]), "rep": repeated as u8,
+        "src": sc["src"].as_str().unwrap_or("")}));
     let Some(lx) = phase("lex", emit, || lex_proj(text)) else { return (0, 0, false) };
     let (ntok, nnt) = (lx.starts.len(), lx.nontrivia);
     emit(lx.ev);
@@ -590,6 +607,10 @@ fn exec_script(sc: &J, emit: &mut dyn FnMut(J)) -> (usize, usize, bool) {
 // ------------------------------------------------------------------------------------------
 const STACK_BYTES: usize = 8 << 20; // the default main-thread stack on Linux
 const AS_LIMIT: u64 = 4 << 30;
+/// No script of the generated size takes more than a few milliseconds; a child that makes no
+/// progress for this long is stopped and the script it was working on is tried once more alone.
+const STALL: Duration = Duration::from_secs(20);
+const STALL_SINGLE: Duration = Duration::from_secs(30);
 
 fn child(args: &[String]) -> i32 {
     let scripts = read_ndjson(arg(args, "--scripts").expect("--scripts"));
@@ -602,12 +623,20 @@ fn child(args: &[String]) -> i32 {
         libc::setrlimit(libc::RLIMIT_AS, &lim);
     }
     install_panic_hook();
+    // which texts occur in more than one script of the file (Reset.rep)
+    let mut mult: std::collections::HashMap<&str, u32> = std::collections::HashMap::new();
+    for sc in &scripts {
+        *mult.entry(sc["text"].as_str().unwrap_or("")).or_insert(0) += 1;
+    }
+    let repeated: Vec<bool> = scripts.iter().map(|sc| mult[sc["text"].as_str().unwrap_or("")] > 1).collect();
+    drop(mult);
     let h = std::thread::Builder::new()
         .stack_size(STACK_BYTES)
         .spawn(move || {
             let mut f = std::io::BufWriter::new(std::fs::File::create(&outp).expect("create part file"));
             let mut st = std::io::BufWriter::new(std::fs::File::create(format!("{outp}.stats")).expect("create stats file"));
-            for sc in &scripts[from..to] {
+            for (k, sc) in scripts.iter().enumerate().take(to).skip(from) {
+                let rep = repeated[k];
                 let mut nev = 0usize;
                 let r = if stream {
                     let mut emit = |e: J| {
@@ -615,11 +644,11 @@ fn child(args: &[String]) -> i32 {
                         f.flush().unwrap();
                         nev += 1;
                     };
-                    exec_script(sc, &mut emit)
+                    exec_script(sc, rep, &mut emit)
                 } else {
                     let mut buf: Vec<String> = Vec::new();
                     let mut emit = |e: J| buf.push(e.to_string());
-                    let r = exec_script(sc, &mut emit);
+                    let r = exec_script(sc, rep, &mut emit);
                     nev = buf.len();
                     for l in &buf {
                         writeln!(f, "{l}").unwrap();
@@ -644,9 +673,14 @@ enum Ended {
     Timeout,
 }
 
-fn spawn_child(scripts: &str, from: usize, to: usize, out: &Path, stream: bool, limit: Duration) -> Ended {
+/// Start a child on scripts[from..to).  The child flushes its output after every script (after
+/// every event with `stream`), so "the output file has not grown for `stall`" means that one
+/// script has been running for that long.
+fn spawn_child(scripts: &str, from: usize, to: usize, out: &Path, stream: bool, stall: Duration) -> Ended {
     use std::os::unix::process::ExitStatusExt;
-    let exe = std::env::current_exe().expect("current_exe");
+    // the running image itself (still the same program if the file was rebuilt in the meantime)
+    let exe = if Path::new("/proc/self/exe").exists() { PathBuf::from("/proc/self/exe") } else { std::env::current_exe().expect("current_exe") };
+    let _ = std::fs::remove_file(out);
     let mut cmd = std::process::Command::new(exe);
     cmd.args(["parse-run", "--child", "--scripts", scripts, "--from", &from.to_string(), "--to", &to.to_string(), "--out"]).arg(out);
     if stream {
@@ -654,7 +688,8 @@ fn spawn_child(scripts: &str, from: usize, to: usize, out: &Path, stream: bool, 
     }
     cmd.stdin(std::process::Stdio::null()).stdout(std::process::Stdio::null()).stderr(std::process::Stdio::null());
     let mut ch = cmd.spawn().expect("spawn child");
-    let t0 = Instant::now();
+    let mut last_growth = Instant::now();
+    let mut last_size = 0u64;
     loop {
         match ch.try_wait().expect("wait") {
             Some(st) => {
@@ -665,12 +700,17 @@ fn spawn_child(scripts: &str, from: usize, to: usize, out: &Path, stream: bool, 
                 }
             }
             None => {
-                if t0.elapsed() > limit {
+                let size = std::fs::metadata(out).map(|m| m.len()).unwrap_or(0);
+                if size != last_size {
+                    last_size = size;
+                    last_growth = Instant::now();
+                }
+                if last_growth.elapsed() > stall {
                     let _ = ch.kill();
                     let _ = ch.wait();
                     return Ended::Timeout;
                 }
-                std::thread::sleep(Duration::from_millis(5));
+                std::thread::sleep(Duration::from_millis(10));
             }
         }
     }
@@ -712,8 +752,7 @@ fn run_range(scripts: &str, a: usize, b: usize, tmp: &Path, tally: &std::sync::M
             tally.lock().unwrap().skipped += b - cur;
             break;
         }
-        let limit = Duration::from_secs(120) + Duration::from_millis(200 * (b - cur) as u64);
-        let end = spawn_child(scripts, cur, b, &part, false, limit);
+        let end = spawn_child(scripts, cur, b, &part, false, STALL);
         let got = read_lines(&part);
         let done = got.iter().filter(|l| is_reset(l)).count();
         lines.extend(got);
@@ -734,7 +773,7 @@ fn run_range(scripts: &str, a: usize, b: usize, tmp: &Path, tally: &std::sync::M
             break;
         }
         // script `cur` did not complete: run it alone, streaming, to see how far it gets
-        let end1 = spawn_child(scripts, cur, cur + 1, &part, true, Duration::from_secs(30));
+        let end1 = spawn_child(scripts, cur, cur + 1, &part, true, STALL_SINGLE);
         let got = read_lines(&part);
         let last = got.last().map(|l| serde_json::from_str::<J>(l).ok().and_then(|j| j["a"].as_str().map(str::to_owned)).unwrap_or_default()).unwrap_or_default();
         let id = got.first().and_then(|l| serde_json::from_str::<J>(l).ok()).map(|j| j["id"].clone()).unwrap_or(J::from(0));
@@ -753,7 +792,7 @@ fn run_range(scripts: &str, a: usize, b: usize, tmp: &Path, tally: &std::sync::M
             let mut t = tally.lock().unwrap();
             match end1 {
                 Ended::Timeout => {
-                    lines.push(json!({"a": "Hang", "after": last, "secs": 30}).to_string());
+                    lines.push(json!({"a": "Hang", "after": last, "secs": STALL_SINGLE.as_secs()}).to_string());
                     t.hangs += 1;
                 }
                 Ended::Signal(s) => {
